@@ -13,7 +13,7 @@ EXPLANATION = (
     'and short_hex prints the first 6 bytes as 2-digit lower hex; (R4) every arm records in `common` the fingerprint of what it left at rel '
     '(and the loser at the loser name), deletes remove the entry; (R5) the archive saved is exactly that map, with the epoch bumped, at the path '
     'that was loaded; (R6) = C02.R5 no stale base entries; (R7) mirror symmetry and Noop on a=b=base from the C18 table; (R8) fingerprint_path hashes '
-    'only the bytes of the file (or the link target) and takes the type from symlink_metadata; (R9) a failed delete is not recorded as done. '
+    'only the bytes of the file (or the link target) and takes the type from symlink_metadata; (R9) a failed delete is not recorded as done; (R10) every non-dry-run Ok return of run_bisync passes Archive::save, so a run that reports success has recorded the state it left. '
     'Not decided: convergence and idempotence as behaviours (paper argument from R4-R7 + C18).')
 ASSUMPTIONS = ['BLAKE3 collision freeness', 'BTreeMap API semantics']
 
